@@ -83,6 +83,10 @@ inductive Prim where
   | savePJ                       -- sync_pj := copy of p_jh
   | restorePJ                    -- p_jh := sync_pj
   | advT (τ : Coef)              -- r->t += τ
+  | sabaInit (corr : Bool)       -- gravity := JACOBI (correctors) | gravity_ignore_terms := 1  (saba.c:226-232)
+  | posJacobiAll                 -- jacobi_to_inertial_pos with N_active := N   (saba.c)
+  | jacAccAll                    -- inertial_to_jacobi_acc with N_active := N   (saba.c)
+  | toInertialAll                -- jacobi_to_inertial_posvel with N_active := N (saba.c:287)
   | sabaFold                     -- particles[i].a := dt*dt * p_jh[i].a          (saba.c:140-145)
   | sabaLazyKick (τ : Coef)      -- p_jh[i].v += τ*12*(p_jh[i].a - p_temp[i].a); pos reset (saba.c:180-190)
   deriving DecidableEq, Repr, Inhabited
@@ -98,6 +102,8 @@ def Prim.toString : Prim → String
   | .savePJ => "save" | .restorePJ => "restore"
   | .advT τ => "T=" ++ τ.toString
   | .sabaFold => "sabaFold" | .sabaLazyKick τ => "sabaLazyKick=" ++ τ.toString
+  | .sabaInit b => if b then "sabaInit=1" else "sabaInit=0"
+  | .posJacobiAll => "posJA" | .jacAccAll => "jacAccA" | .toInertialAll => "toIA"
 
 /-! ## WHFast -/
 
@@ -112,6 +118,7 @@ structure Config where
   corrector2 : Bool
   safe : Bool           -- safe_mode
   keep : Bool           -- keep_unsynchronized
+  c2fixed : Bool := false  -- source variant of apply_corrector2 (see `corrector2Ops`)
   deriving DecidableEq, Repr, Inhabited
 
 /-- internal flags -/
@@ -177,9 +184,20 @@ def opC (a b : Coef) : List Prim :=
 def opY (a b : Coef) : List Prim := opC a b ++ opC a.neg b.neg
 /-- `reb_whfast_operator_U` -/
 def opU (a b : Coef) : List Prim := [.kepler a] ++ opY a b ++ opY a b.neg ++ [.kepler a.neg]
-/-- `reb_whfast_apply_corrector2(r, inv)`: `a = 0.5·inv·dt`, `b = corrector2_b·inv·dt` -/
-def corrector2Ops (inv : Int) : List Prim :=
-  opU (.frac inv 2) (.c2b inv) ++ opU (.frac (-inv) 2) (.c2b inv)
+/-- `reb_whfast_operator_Uinv` (exists only in the repaired source, fixes/F18.diff):
+    the inverse of `U(a,b)` -/
+def opUinv (a b : Coef) : List Prim := [.kepler a] ++ opY a.neg b.neg ++ opY a.neg b ++ [.kepler a.neg]
+/-- `reb_whfast_apply_corrector2(r, inv)`.  Two source variants (rv/c09.py detects which one
+    the tree under test has, the replay confirms it):
+    * `fixed = false` (whfast.c:679-684 as found): `a = 0.5·inv·dt`, `b = corrector2_b·inv·dt`,
+      `U(a,b); U(-a,b)` — NOT an inverse for `inv = -1` (finding F18);
+    * `fixed = true` (fixes/F18.diff): `a = 0.5·dt`, `b = corrector2_b·dt`; `inv > 0`:
+      `U(a,b); U(-a,b)`, else `Uinv(-a,b); Uinv(a,b)`. -/
+def corrector2Ops (fixed : Bool) (inv : Int) : List Prim :=
+  if fixed then
+    (if inv > 0 then opU (.frac 1 2) (.c2b 1) ++ opU (.frac (-1) 2) (.c2b 1)
+     else opUinv (.frac (-1) 2) (.c2b 1) ++ opUinv (.frac 1 2) (.c2b 1))
+  else opU (.frac inv 2) (.c2b inv) ++ opU (.frac (-inv) 2) (.c2b inv)
 
 /-- length of the first half drift (part1, synchronised) -/
 def firstCoef (kernel : Nat) : Coef := if kernel == 2 then .frac 5 8 else .frac 1 2
@@ -193,7 +211,7 @@ def syncOps (c : Config) (f : Flags) : List Prim × Flags :=
   let body :=
     (if c.keep then [Prim.savePJ] else []) ++
     [.kepler (lastCoef c.kernel), .com (lastCoef c.kernel)] ++
-    (if c.corrector2 then corrector2Ops (-1) else []) ++
+    (if c.corrector2 then corrector2Ops c.c2fixed (-1) else []) ++
     (if c.corrector != 0 then correctorOps c.coord c.corrector (-1) else []) ++
     [.toInertial] ++
     (if c.keep then [Prim.restorePJ] else [])
@@ -227,7 +245,7 @@ def part1Ops (c : Config) (f : Flags) : List Prim × Flags :=
   let drift :=
     if f2.isSync then
       (if c.corrector != 0 then correctorOps c.coord c.corrector 1 else []) ++
-      (if c.corrector2 then corrector2Ops 1 else []) ++
+      (if c.corrector2 then corrector2Ops c.c2fixed 1 else []) ++
       [.kepler (firstCoef c.kernel), .com (firstCoef c.kernel)]
     else [.kepler (.frac 1 1), .com (.frac 1 1)]
   (.init :: p2 ++ drift ++ [.jump (.frac 1 2), .toInertial, .advT (.frac 1 2)], f2)
@@ -242,6 +260,85 @@ def part2Ops (c : Config) (f : Flags) : List Prim × Flags :=
 def stepOps (c : Config) (f : Flags) : List Prim × Flags :=
   let (p1, f1) := part1Ops c f
   let (p2, f2) := part2Ops c f1
+  (p1 ++ [.updateAcc] ++ p2, f2)
+
+/-! ## SABA (integrator_saba.c) -/
+
+/-- `ri_saba`: `type` as in the C enum (`0x0..0x9`, `0x100+k` modified-kick corrector,
+    `0x200+k` lazy corrector) -/
+structure SabaConfig where
+  type : Nat
+  safe : Bool
+  keep : Bool
+  deriving DecidableEq, Repr, Inhabited
+
+def sabaTypeOk (t : Nat) : Bool :=
+  t ≤ 9 || (0x100 ≤ t && t ≤ 0x103) || (0x200 ≤ t && t ≤ 0x203)
+
+/-- `reb_saba_stages` -/
+def sabaStages (t : Nat) : Nat :=
+  match t % 0x100, t / 0x100 with
+  | 0, _ => 1 | 1, _ => 2 | 2, _ => 3 | 3, _ => 4
+  | 7, 0 => 6 | 4, 0 => 7 | 5, 0 => 7 | 6, 0 => 8 | 8, 0 => 8 | 9, 0 => 9
+  | _, _ => 0
+
+/-- `reb_saba_corrector_step(r, cc)` with `cc = mult · reb_saba_cc[row]` -/
+def sabaCorrOps (t : Nat) (mult : Int) : List Prim :=
+  let row := t % 0x100
+  match t / 0x100 with
+  | 1 => [.posJacobiAll, .updateAcc, .jerk, .sabaFold, .interaction (.sabaCC row mult)]
+  | 2 => [.posJacobiAll, .updateAcc, .jacAccAll, .lazyShift, .posJacobiAll, .updateAcc, .jacAccAll,
+          .sabaLazyKick (.sabaCC row mult)]
+  | _ => []
+
+/-- `reb_integrator_saba_synchronize` (no init call; the copy of `p_jh` is taken even when
+    already synchronised) -/
+def sabaSyncOps (c : SabaConfig) (f : Flags) : List Prim × Flags :=
+  let row := c.type % 0x100
+  let pre := if c.keep then [Prim.savePJ] else []
+  if f.isSync then (pre, f) else
+  let body := (if c.type ≥ 0x100 then sabaCorrOps c.type 1
+               else [.kepler (.sabaC row 0 1), .com (.sabaC row 0 1)]) ++ [.toInertialAll]
+  (pre ++ body ++ (if c.keep then [Prim.restorePJ] else []),
+   if c.keep then f else { f with isSync := true })
+
+/-- `reb_integrator_saba_part1` -/
+def sabaPart1Ops (c : SabaConfig) (f : Flags) : List Prim × Flags :=
+  let row := c.type % 0x100
+  let f1 := initF f
+  let (p2, f2) := if c.safe || f1.recalc then ([Prim.fromInertial], { f1 with recalc := false })
+                  else ([], f1)
+  let drift :=
+    if c.type ≥ 0x100 then
+      sabaCorrOps c.type (if f2.isSync then 1 else 2) ++ [.kepler (.sabaC row 0 1), .com (.sabaC row 0 1)]
+    else if f2.isSync then [.kepler (.sabaC row 0 1), .com (.sabaC row 0 1)]
+    else [.kepler (.sabaC row 0 2), .com (.sabaC row 0 2)]
+  ([.sabaInit (c.type ≥ 0x100), .init] ++ p2 ++ drift ++ [.toInertial], f2)
+
+/-- the stage loop of `reb_integrator_saba_part2` (j = 1 … stages-1) -/
+def sabaStageOps (row stages : Nat) : Nat → Nat → List Prim
+  | 0, _ => []
+  | fuel + 1, j =>
+    if j < stages then
+      let i1 := if j > stages / 2 then stages - j else j
+      let i2 := if j > (stages - 1) / 2 then stages - j - 1 else j
+      [.kepler (.sabaC row i1 1), .com (.sabaC row i1 1), .posJacobiAll, .updateAcc,
+       .interaction (.sabaD row i2)] ++ sabaStageOps row stages fuel (j + 1)
+    else []
+
+/-- `reb_integrator_saba_part2` -/
+def sabaPart2Ops (c : SabaConfig) (f : Flags) : List Prim × Flags :=
+  let row := c.type % 0x100
+  let stages := sabaStages c.type
+  let f1 := { f with isSync := false }
+  let (ps, f2) := if c.safe then sabaSyncOps c f1 else ([], f1)
+  ([.interaction (.sabaD row 0)] ++ sabaStageOps row stages stages 1 ++
+   (if c.type ≥ 0x100 then [.kepler (.sabaC row 0 1), .com (.sabaC row 0 1)] else []) ++
+   ps ++ [.advT (.frac 1 1)], f2)
+
+def sabaStepOps (c : SabaConfig) (f : Flags) : List Prim × Flags :=
+  let (p1, f1) := sabaPart1Ops c f
+  let (p2, f2) := sabaPart2Ops c f1
   (p1 ++ [.updateAcc] ++ p2, f2)
 
 /-! ## API operations -/
@@ -264,6 +361,123 @@ def opOps {X} (c : Config) (f : Flags) : Op X → List Prim × Flags
   | .read => ([], f)
   | .setRecalc => ([], { f with recalc := true })
   | .poke _ => ([], f)
+
+/-! ## MERCURIUS (integrator_mercurius.c:428-546) — kick first; `r->particles` itself holds
+    democratic heliocentric coordinates while unsynchronised -/
+
+inductive MPrim where
+  | allocDcrit                   -- dcrit := realloc(N)                       (436-444)
+  | allocTmp                     -- particles_backup, encounter_map := realloc (445-451)
+  | warn
+  | toDh                         -- reb_integrator_mercurius_inertial_to_dh
+  | toInertial                   -- reb_integrator_mercurius_dh_to_inertial
+  | dcrit                        -- dcrit[i] := calculate_dcrit_for_particle   (470-473)
+  | setup                        -- gravity := MERCURIUS; mode := 0; L := default if NULL
+  | updateAcc                    -- reb_calculate_acceleration / reb_simulation_update_acceleration
+  | interaction (τ : Coef)       -- reb_integrator_mercurius_interaction_step
+  | jump (τ : Coef)              -- reb_integrator_mercurius_jump_step
+  | com (τ : Coef)               -- reb_integrator_mercurius_com_step
+  | keplerEncounter (τ : Coef)   -- backup; kepler_step; encounter_predict; encounter_step (506-516)
+  | advT (τ : Coef)
+  deriving DecidableEq, Repr, Inhabited
+
+def MPrim.toString : MPrim → String
+  | .allocDcrit => "mAllocD" | .allocTmp => "mAllocT" | .warn => "warn"
+  | .toDh => "mToDh" | .toInertial => "mToI" | .dcrit => "mDcrit" | .setup => "mSetup"
+  | .updateAcc => "upd" | .interaction τ => "mI=" ++ τ.toString | .jump τ => "mJ=" ++ τ.toString
+  | .com τ => "mC=" ++ τ.toString | .keplerEncounter τ => "mKE=" ++ τ.toString
+  | .advT τ => "T=" ++ τ.toString
+
+structure MFlags where
+  isSync : Bool        -- is_synchronized
+  recalc : Bool        -- recalculate_coordinates_this_timestep
+  recalcR : Bool       -- recalculate_r_crit_this_timestep
+  allocD : Bool        -- N_allocated_dcrit >= N
+  allocT : Bool        -- N_allocated >= N
+  deriving DecidableEq, Repr, Inhabited
+
+/-- `reb_integrator_mercurius_synchronize` -/
+def mSyncOps (f : MFlags) : List MPrim × MFlags :=
+  if f.isSync then ([], f) else
+  ([.setup, .updateAcc, .interaction (.frac 1 2), .toInertial], { f with recalc := true, isSync := true })
+
+/-- `reb_integrator_mercurius_part1` -/
+def mPart1Ops (safe : Bool) (f : MFlags) : List MPrim × MFlags :=
+  let (p0, f0) := if !f.allocD then ([MPrim.allocDcrit], { f with allocD := true, recalcR := true, recalc := true })
+                  else ([], f)
+  let (p1, f1) := if !f0.allocT then ([MPrim.allocTmp], { f0 with allocT := true }) else ([], f0)
+  let (p2, f2) :=
+    if safe || f1.recalc then
+      let (ps, fs) := if !f1.isSync then ((mSyncOps f1).1 ++ [MPrim.warn], (mSyncOps f1).2) else ([], f1)
+      (ps ++ [MPrim.toDh], { fs with recalc := false })
+    else ([], f1)
+  let (p3, f3) :=
+    if f2.recalcR then
+      let g := { f2 with recalcR := false }
+      let (ps, fs) := if !g.isSync then ((mSyncOps g).1 ++ [MPrim.toDh, MPrim.warn], { (mSyncOps g).2 with recalc := false })
+                      else ([], g)
+      (ps ++ [MPrim.dcrit], fs)
+    else ([], f2)
+  (p0 ++ p1 ++ p2 ++ p3 ++ [.setup], f3)
+
+/-- `reb_integrator_mercurius_part2` -/
+def mPart2Ops (safe : Bool) (f : MFlags) : List MPrim × MFlags :=
+  let f1 := { f with isSync := false }
+  let (ps, f2) := if safe then mSyncOps f1 else ([], f1)
+  ([.interaction (if f.isSync then .frac 1 2 else .frac 1 1), .jump (.frac 1 2), .com (.frac 1 1),
+    .keplerEncounter (.frac 1 1), .jump (.frac 1 2)] ++ ps ++ [.advT (.frac 1 1)], f2)
+
+def mStepOps (safe : Bool) (f : MFlags) : List MPrim × MFlags :=
+  let (p1, f1) := mPart1Ops safe f
+  let (p2, f2) := mPart2Ops safe f1
+  (p1 ++ [.updateAcc] ++ p2, f2)
+
+/-- API ops for MERCURIUS: `setRecalc` sets `recalculate_coordinates_this_timestep` -/
+def mOpOps {X} (safe : Bool) (f : MFlags) : Op X → List MPrim × MFlags
+  | .step => mStepOps safe f
+  | .synchronize => mSyncOps f
+  | .read => ([], f)
+  | .setRecalc => ([], { f with recalc := true })
+  | .poke _ => ([], f)
+
+/-! ## EOS (integrator_eos.c:538-721): the outer scheme `phi0`.  Its operators are `static` in
+    the C file, so there is no replay; the model keeps the schedule abstract: `drift k` is the
+    k-fold of the scheme's first outer drift `a₀·dt` (k = 1 in a fresh step and in synchronize,
+    k = 2 when two half drifts are merged, `dtfac = 2.`), `body` everything of the kernel after
+    that first drift (identical in both branches of `reb_integrator_eos_part2`). -/
+
+inductive EPrim where
+  | pre | post                   -- reb_integrator_eos_preprocessor / postprocessor (phi0)
+  | drift (k : Nat)              -- reb_integrator_eos_drift_shell0(r, k * a0 * dt)
+  | body                         -- the rest of the phi0 kernel
+  deriving DecidableEq, Repr, Inhabited
+
+/-- `reb_integrator_eos_synchronize` -/
+def eSyncOps (isSync : Bool) : List EPrim × Bool :=
+  if isSync then ([], true) else ([.drift 1, .post], true)
+
+/-- `reb_integrator_eos_part2` (part1 only switches gravity off) -/
+def eStepOps (safe isSync : Bool) : List EPrim × Bool :=
+  let head := if isSync then [EPrim.pre, .drift 1] else [.drift 2]
+  let (ps, f) := if safe then eSyncOps false else ([], false)
+  (head ++ [.body] ++ ps, f)
+
+def sabaOpOps {X} (c : SabaConfig) (f : Flags) : Op X → List Prim × Flags
+  | .step => sabaStepOps c f
+  | .synchronize => sabaSyncOps c f
+  | .read => ([], f)
+  | .setRecalc => ([], { f with recalc := true })
+  | .poke _ => ([], f)
+
+/-- explicit error value: "Invalid SABA integrator type used." -/
+def sabaApiOps {X} (c : SabaConfig) (f : Flags) (o : Op X) : Except String (List Prim × Flags) :=
+  if !sabaTypeOk c.type then .error "saba: invalid type" else
+  match o with
+  | .synchronize =>
+    -- saba.c:276-279 copies `p_jh` before looking at `is_synchronized`: NULL before the first step
+    if c.keep && !f.allocated then .error "crash: saba synchronize copies p_jh == NULL (F19)"
+    else .ok (sabaOpOps c f o)
+  | _ => .ok (sabaOpOps c f o)
 
 /-- explicit error value: the configurations `reb_integrator_whfast_init` rejects -/
 def apiOps {X} (c : Config) (f : Flags) (o : Op X) : Except String (List Prim × Flags) :=
@@ -311,7 +525,10 @@ structure Sem (T PJ X V A : Type) where
 variable {T PJ X V A : Type}
 
 def denote (S : Sem T PJ X V A) : Prim → St PJ X V A → St PJ X V A
-  | .init, s | .warn, s | .advT _, s => s
+  | .init, s | .warn, s | .advT _, s | .sabaInit _, s => s
+  | .posJacobiAll, s => { s with pos := S.posJ s.pj }
+  | .jacAccAll, s => { s with pj := S.jacAcc s.acc s.pj }
+  | .toInertialAll, s => { s with pos := S.toIpos s.pj, vel := S.toIvel s.pj }
   | .fromInertial, s => { s with pj := S.fromI s.pos s.vel s.pj }
   | .toInertial, s => { s with pos := S.toIpos s.pj, vel := S.toIvel s.pj }
   | .posJacobi, s => { s with pos := S.posJ s.pj }
@@ -365,13 +582,13 @@ def agree (L : Comps) (s s' : St PJ X V A) : Prop :=
 
 /-- if two states agree on `L` before primitive `p`, they agree on `transfer p L` after -/
 def transfer : Prim → Comps → Comps
-  | .init, L | .warn, L | .advT _, L => L
+  | .init, L | .warn, L | .advT _, L | .sabaInit _, L => L
   | .fromInertial, L => { L with pj := L.pos && L.vel && L.pj }
-  | .toInertial, L => { L with pos := L.pj, vel := L.pj }
-  | .posJacobi, L | .posBary, L => { L with pos := L.pj }
+  | .toInertial, L | .toInertialAll, L => { L with pos := L.pj, vel := L.pj }
+  | .posJacobi, L | .posBary, L | .posJacobiAll, L => { L with pos := L.pj }
   | .kepler _, L | .com _, L | .jump _, L => L
   | .lazyShift, L => { L with tmp := L.pj }
-  | .interaction _, L | .jacAcc, L => { L with pj := L.acc && L.pj }
+  | .interaction _, L | .jacAcc, L | .jacAccAll, L => { L with pj := L.acc && L.pj }
   | .updateAcc, L => { L with acc := L.pos }
   | .jerk, L => { L with pj := L.pos && L.acc && L.pj }
   | .mkFold, L => { L with acc := L.pj && L.acc }
